@@ -422,7 +422,18 @@ def check_property(prop, tier, seed, relock=False):
             if rs is None:
                 continue
             sampling.append({'function': k, 'evaluations': rs['evaluations'], 'precondition_false': rs['precondition_false'], 'failures': len(rs['failures'])})
+            undecided_fn = any(u.startswith(k + ' ') or u.startswith(k + ':') for u in unsupported)
             for fl in rs['failures'][:1]:
+                if undecided_fn:
+                    # the proof of this function is undecided (construct outside the engine's subset) but the SAME contract, evaluated
+                    # natively on the real function for a concrete input, fails: a genuine counterexample on the real code
+                    os.makedirs(os.path.join(OUT, 'replays'), exist_ok=True)
+                    path = os.path.join(OUT, 'replays', f"{prop}_{k.replace('/', '_').replace('[', '_').replace(']', '_')}_runtime_contract_check.json")
+                    json.dump({'property': prop, 'obligation': f'{k}:runtime-contract-check', 'function': k, 'inputs': fl['inputs'], 'failed_clauses': fl['failed'],
+                               'note': 'proof undecided (unsupported construct); the contract evaluated natively on the real function fails for this input',
+                               'source_root': src.root}, open(path, 'w'), indent=1)
+                    violations.append((f'{k}:runtime-contract-check', path, {'confirmed': True}))
+                    continue
                 checker_errors.append(f"contract of {k} fails on a concrete input although its obligations are discharged (unsound engine or axiom): {fl['failed']} inputs={json.dumps(fl['inputs'])[:300]}")
     except Exception as e:
         checker_errors.append(f'contract sampling crashed: {e!r}')
